@@ -1,5 +1,5 @@
 """C03 obligations: lexer reset frame lemma (CH-lex); statement splitting (CH-pre) added later."""
-from props._lexobs import FN
+from props._lexobs import FN, lex_obs
 from props._preobs import FN_PRE, PRE_ASSUME
 from vf.ch import Ob
 
@@ -17,5 +17,6 @@ def obligations(tier):
     for k in firsts:
         obs.append(Ob(f"C03.split/3lines/first={k}", "pre", "c_split3", {"VF_K1": k}, t, FN_PRE,
                       f"three lines: first = catalogue line #{k}, second and third any of the 22 (symbolic)"))
+    obs += lex_obs("C03", "c_case", ["option_pos", "after_columns", "stmt_start", "col_later"], tier, "tables-intact")
     return obs + [Ob("C03.reset/all_flags", "lex", "c_reset", {"VF_CTX": 0}, t, FN,
                "every lexer flag symbolic (7 bools, lp_open/lt_open 0..3, last_token any string <= 10 chars, last_par any string <= 2 chars) x all 117 vocabulary words")]
